@@ -9,6 +9,7 @@ CONSTANT RoleMenu <- RM0
 CONSTANT DocMenu <- DMa1
 CONSTANT Lims <- L0
 CONSTANT MaxSteps = 8
+CONSTANT Thin = 4
 CONSTANT PageGap = FALSE
 SPECIFICATION Spec
 VIEW view
@@ -20,4 +21,6 @@ INVARIANT RevokedUnfetchable
 INVARIANT NoSpuriousRevoke
 INVARIANT ReplicaExactM
 INVARIANT NoSilentDropM
+INVARIANT CandExport
+INVARIANT NontrivExport
 CHECK_DEADLOCK FALSE
